@@ -309,13 +309,19 @@ impl Scenario for C09Stub {
                 if many {
                     cx.probe("more_than_256_pages_in_one_list");
                 }
-                let n = if huge { 1 + cx.draw(2) } else if many { 257 + cx.draw(400) } else { *cx.pick(&[1u64, 0, 2, 3, 5, 9]) };
+                // list lengths: small mostly; now and then any length up to 100 (a threshold in the middle
+                // of the range is as likely as one at its ends)
+                let medium = !huge && !many && cx.chance(1, 12);
+                if medium {
+                    cx.probe("page_list_of_10_to_100_pages");
+                }
+                let n = if huge { 1 + cx.draw(2) } else if many { 257 + cx.draw(400) } else if medium { 10 + cx.draw(91) } else { *cx.pick(&[1u64, 0, 2, 3, 5, 9]) };
                 let mut pages: Vec<Page<'static>> = Vec::new();
                 for k in 0..n {
                     let (w, h) = if huge && k == 0 {
                         cx.probe("offset_reaches_0xFFF0");
                         (16383u32, 32u32)
-                    } else if many {
+                    } else if many || medium {
                         (12u32, 8u32)
                     } else if k > 0 && cx.chance(1, 6) {
                         // the same page again, byte for byte
